@@ -67,6 +67,9 @@ type Req struct {
 	Scratch bool `json:"scratch,omitempty"`
 	// OwnLog: a middleware in front maps a request-scoped *log.Logger for this request.
 	OwnLog bool `json:"own_logger,omitempty"`
+	// Before: "" | "pass" | "stop": the request carries a header a Before handler
+	// looks at; "stop" makes it answer the request itself (204 and the token).
+	Before string `json:"before,omitempty"`
 }
 
 type Round struct {
@@ -97,6 +100,21 @@ func build(r Round) *flamego.Flame {
 	// some requests bring a logger of their own (request scope): whoever takes a
 	// *log.Logger by injection during such a request - the Logger middleware
 	// first of all - must get that one
+	// handlers in front of the router: they see every request and may end it
+	f.Before(func(w http.ResponseWriter, r *http.Request) bool {
+		if r.Header.Get("X-Before") == "stop" {
+			w.Header().Set("X-Before-Token", r.Header.Get("X-Token"))
+			w.WriteHeader(http.StatusNoContent)
+			return true
+		}
+		return false
+	})
+	f.Before(func(w http.ResponseWriter, r *http.Request) bool {
+		if r.Header.Get("X-Before") == "pass" {
+			w.Header().Set("X-Before-Token", r.Header.Get("X-Token"))
+		}
+		return false
+	})
 	f.Use(func(c flamego.Context) {
 		if tok := c.Request().Header.Get("X-Own-Log"); tok != "" {
 			buf := &lockedBuf{}
@@ -230,6 +248,9 @@ func serve(f *flamego.Flame, q Req) (r resp) {
 	if q.Hdr != "" {
 		h.Set("X-Api", q.Hdr)
 	}
+	if q.Before != "" {
+		h.Set("X-Before", q.Before)
+	}
 	if q.Scratch {
 		h.Set("X-Scratch", "1")
 	}
@@ -310,7 +331,7 @@ func checkRound(r Round) (out evid.Outcome) {
 	want := make([]resp, len(r.Pool))
 	for i, q := range r.Pool {
 		want[i] = serve(build(r), q)
-		if q.OwnLog && (want[i].ownLog == "nothing logged" || want[i].ownLog == "no logger registered") && want[i].escaped == "" {
+		if q.OwnLog && q.Before != "stop" && (want[i].ownLog == "nothing logged" || want[i].ownLog == "no logger registered") && want[i].escaped == "" {
 			// the comparison below holds an implementation against itself; that the
 			// Logger middleware writes to the *log.Logger mapped for this request
 			// (the nearest registration) is asserted here, on the request served alone
@@ -452,6 +473,7 @@ func genReq(t *rapid.T, n int) Req {
 		q.P = "/users/" + s()
 	}
 	q.Scratch = rapid.IntRange(0, 3).Draw(t, "scratch") == 0
+	q.Before = []string{"", "", "", "", "", "pass", "pass", "stop"}[rapid.IntRange(0, 7).Draw(t, "before")]
 	q.OwnLog = rapid.IntRange(0, 3).Draw(t, "ownlog") == 0
 	if q.M == "GET" && rapid.IntRange(0, 5).Draw(t, "head") == 0 {
 		q.M = "HEAD"
